@@ -121,7 +121,9 @@ def _sig_alphabet(env, thorough, suite="basic", mi=0):
               ("x1=subgroup", kG[0][1])]
     seconds = {"x1=subgroup": [("x0=matching", kG[0][0]), ("x0=mismatching", (kG[0][0] + 1) % P)],
                "x1=1": [("x0=non-subgroup", nons[0]), ("x0=off-curve", off[0])]}
-    generic = [("x0=0", 0), ("x0=p", P), ("x0=2^381-1", (1 << 381) - 1), ("x0:flag-a", kG[0][0] | (1 << 381)),
+    generic = [("x0=0", 0), ("x0=p", P), ("x0=2^381-1", (1 << 381) - 1), ("x0=only-flag-a", 1 << 381),
+               ("x0=only-flag-b", 1 << 382), ("x0=only-flag-c", 1 << 383), ("x0=only-flags-abc", 7 << 381),
+               ("x0:flag-a", kG[0][0] | (1 << 381)),
                ("x0:flag-b", kG[0][0] | (1 << 382)), ("x0:flag-c", kG[0][0] | (1 << 383))]
     for l1, x1 in firsts:
         for l2, z2 in seconds.get(l1, []) + generic:
@@ -183,6 +185,16 @@ def run_call(suite, entry, args):
                     want = MB.aggregate([MB.sign(suite, s, MSGS[m]) for s, m in zip(sks, mis)])
                     exp = sig == want and (suite != "basic" or len(set(mis)) == len(mis))
             got = BL.verdict(C.AggregateVerify, list(pks), [MSGS[m] for m in mis], sig)
+        elif entry == "AggregateVerify:cancelling-keys":
+            # two keys that cancel (sk and r - sk) on one message: the identity is the one
+            # valid aggregate; every other string - in particular every non-canonical encoding
+            # of the identity - must be rejected
+            sig, = args
+            pks = [MB.sk_to_pk(SK[0]), MB.sk_to_pk(R_ - SK[0])]
+            exp = (sig == MB.g2_bytes(None)) and suite != "basic" and suite != "aug"
+            if suite == "basic":
+                exp = False  # repeated message
+            got = BL.verdict(C.AggregateVerify, pks, [MSGS[0], MSGS[0]], sig)
         else:  # FastAggregateVerify
             pks, mi, sig = args
             ok = all(MB.key_validate(k) for k in pks) and MB.sig_in_subgroup(sig) and len(pks) >= 1
@@ -227,6 +239,9 @@ def _resolve(a, env):
         pk, sig = ka[a["ki"]][1], sa[a["si"]][1]
         lbl = "key[%s] sig[%s]" % (ka[a["ki"]][0], sa[a["si"]][0])
         return ((pk, a["mi"], sig) if entry == "Verify" else (pk, sig)), lbl
+    if entry == "AggregateVerify:cancelling-keys":
+        sa = sig_alphabet(env, thorough, "basic", 0)
+        return (sa[a["si"]][1],), "cancelling-keys sig[%s]" % sa[a["si"]][0]
     # aggregate entry points: list of n, bad item at position pos
     n, pos = a["n"], a["pos"]
     pks = [MB.sk_to_pk(SK[i]) for i in range(n)]
@@ -237,7 +252,13 @@ def _resolve(a, env):
         mis = 0
         sig = MB.aggregate([MB.sign(suite, SK[i], MSGS[0]) for i in range(n)])
     lbl = "honest"
-    if a.get("ki") is not None:
+    if a.get("append") is not None and n < len(MSGS):
+        # an extra (bad key, fresh message) pair after an otherwise honest claim
+        pks = pks + [ka[a["append"]][1]]
+        if entry == "AggregateVerify":
+            mis = mis + [n]
+        lbl = "appended-key[%s]" % ka[a["append"]][0]
+    elif a.get("ki") is not None:
         pks[pos] = ka[a["ki"]][1]
         lbl = "key[%d/%d][%s]" % (pos, n, ka[a["ki"]][0])
     if a.get("si") is not None:
@@ -318,6 +339,9 @@ def run(ctx):
                      "flags=100:x=off-curve", "flags=000:x=subgroup", "point:G+T_11"]) if ctx.quick else kreps[1:]
     sagg = pick(sa, ["leading-00x1", "truncated", "flags=110:x1=0:x0=0", "flags=100:x1=1:x0=non-subgroup",
                      "flags=100:x1=subgroup:x0:flag-a", "point:S+T_13"]) if ctx.quick else sreps[1:]
+    kapp = pick(ka, ["flags=110:x=0", "flags=100:x=non-subgroup", "point:T_3", "point:G+T_11", "flags=111:x=0"])
+    sident = [i for i, (l, _b) in enumerate(sa) if ":x1=0:" in l and ("x0=0" in l or "only-flag" in l)] + \
+        pick(sa, ["point:identity", "valid", "len96:zeros"])
     for suite in BL.SUITES:
         for ki in range(nk):
             plan.append((suite, "KeyValidate", {"ki": ki}))
@@ -337,6 +361,14 @@ def run(ctx):
                     plan.append((suite, "AggregateVerify", {"n": n, "pos": pos, "ki": ki, "si": None}))
             for si in sagg:
                 plan.append((suite, "AggregateVerify", {"n": n, "pos": 0, "ki": None, "si": si}))
+            if n < 3:
+                for ki in kapp:
+                    plan.append((suite, "AggregateVerify", {"n": n, "pos": 0, "ki": None, "si": None, "append": ki}))
+        for si in sident:
+            plan.append((suite, "AggregateVerify:cancelling-keys", {"si": si}))
+    for n in (1, 2):
+        for ki in kapp:
+            plan.append(("pop", "FastAggregateVerify", {"n": n, "pos": 0, "ki": None, "si": None, "append": ki}))
     for ki in kreps:
         plan.append(("pop", "PopVerify", {"ki": ki, "si": 0, "mi": 0}))
     for si in sreps:
@@ -354,6 +386,8 @@ def run(ctx):
     tasks = []
     for (suite, entry), calls in groups.items():
         per = 40 if entry in ("KeyValidate",) else (6 if entry in ("AggregateVerify", "FastAggregateVerify") else 24)
+        if entry == "AggregateVerify:cancelling-keys":
+            per = 12
         for i in range(0, len(calls), per):
             tasks.append(("calls", {"suite": suite, "entry": entry, "calls": calls[i:i + per], "sample": i == 0}))
     ctx.bounds["calls"] = len(plan)
